@@ -124,6 +124,9 @@ structure Join where
   /-- the engine's record that the fan-out attempt is over (`"terminated"`): it has failed, or an event of one of its
   branches was dropped; what is left of its branches is dropped, what its branches still deliver is absorbed -/
   dead : Bool := false
+  /-- the execution has ended and the engine has kept its records of the attempts (something was still outstanding): whatever
+  event of the execution arrives now is dropped -/
+  ended : Bool := false
   deriving Repr, DecidableEq
 
 structure Cfg where
@@ -356,9 +359,13 @@ def tidyEnd (c : Cfg) (v : Vol) (owner : Option Nat) (excl : List Nat) (failedJ 
   let mineJ := v.joins.filter (fun j => jall.contains j.jid)
   let heldE := ((mineJ.flatMap (fun j => j.heldEv.map (·.2))).filter (fun e => !ids.contains e && !excl.contains e)).eraseDups
   let heldR := (mineJ.flatMap (·.heldRp)).eraseDups
+  -- the records are kept while something of a branch is still outstanding (an event on its way, a nested state about to be
+  -- launched); otherwise they are deleted
+  let outstanding := mine.any (fun m => !(evJids m.kind).isEmpty && !ids.contains m.id && !heldE.contains m.id && !excl.contains m.id)
+  let kept : List Join := if outstanding then jall.map (fun j => ({ jid := j, dead := true, ended := true } : Join)) else []
   (ids.map Act.ackEv ++ heldE.map Act.ackEv ++ heldR.map Act.ackRp,
    { v with pending := v.pending.filter (fun p => !ids.contains p), timers := v.timers.filter (fun t => !ids.contains t),
-            joins := v.joins.filter (fun j => !jall.contains j.jid) ++ jall.map (fun j => ({ jid := j, dead := true } : Join)) })
+            joins := v.joins.filter (fun j => !jall.contains j.jid) ++ kept })
 
 /-- the visit of event `ev` is over and `rest` is its outcome; `rp`: the reply that completed it (a Task visit).
 Returns the broker operations and the new volatile state.  `fuel` bounds the nesting of joins (and parent
@@ -432,6 +439,13 @@ def advance (q : Quirks) (c : Cfg) :
           -- the execution ends while attempts that failed earlier are on record: what is left of them is tidied up
           let (acts, v') := tidyEnd c v none [ev] []
           ([.note true] ++ acts ++ [.ackEv ev] ++ ackR, v')
+        else if q.attemptFailureForgotten && !js.isEmpty then
+          -- the engine has other attempts on record (what a crash left of an attempt that had failed, a second launch of
+          -- a fan-out state …), none of them known to be over: the events held for them are let go, nothing is cancelled
+          let ids := (((js.map (·.jid)).foldl (fun acc x => insertSorted x acc) []).flatMap (registered c none)).map (·.id)
+          let ids := ids.filter (fun i => i != ev)
+          ([.note true] ++ ids.map Act.ackEv ++ [.ackEv ev] ++ ackR,
+           { v with joins := [], timers := v.timers.filter (fun t => !ids.contains t) })
         else ([.note true, .ackEv ev] ++ ackR, v)
       | some p =>
         -- a child execution ends: its result answers the parent's Task
@@ -533,16 +547,24 @@ def onReply (q : Quirks) (c : Cfg) (corr : Nat) (v : Vol) : Option (List Act × 
   | none => none
 
 /-- The event is dropped (`branch_has_terminated`): it belongs to a fan-out attempt that is over, or — an event delivered for
-the first time — to an execution whose record says that it has ended. -/
+the first time, at the top level or when the engine has no attempt of the execution on record — to an execution whose record
+says that it has ended, or the engine has kept the attempts of the execution on record after its end. -/
 def inDeadJoin (q : Quirks) (c : Cfg) (v : Vol) (m : QEv) : Bool :=
   (evJids m.kind).any (deadJid q c v) ||
-    ((evOwner m.kind).isNone && ((c.notes > 0 && !m.redelivered) || (c.failed > 0 && !q.attemptFailureForgotten)))
+    ((evOwner m.kind).isNone &&
+      ((!(evJids m.kind).isEmpty && v.joins.any (·.ended)) ||
+       (c.notes > 0 && !m.redelivered && ((evJids m.kind).isEmpty || v.joins.isEmpty)) ||
+       (c.failed > 0 && !q.attemptFailureForgotten)))
 
 /-- … it is acknowledged; when the engine has the attempt on record the attempt is now over as well, and is tidied up -/
 def dropEv (q : Quirks) (c : Cfg) (v : Vol) (m : QEv) : List Act × Vol :=
   match evJids m.kind with
   | j :: _ =>
-    if (evJids m.kind).any (deadJid q c v) then
+    if v.joins.any (·.ended) then
+      -- kept after the end of the execution: when this was the last thing outstanding the records are deleted
+      let others := c.evq.any (fun x => x.id != m.id && evOwner x.kind == evOwner m.kind && !(evJids x.kind).isEmpty)
+      ([.ackEv m.id], if others then v else { v with joins := v.joins.filter (fun x => !x.ended) })
+    else if (evJids m.kind).any (deadJid q c v) then
       let (acts, v') := tidy c { v with joins := markDead v.joins [j] } (evOwner m.kind) [m.id]
       (Act.ackEv m.id :: acts, v')
     else ([.ackEv m.id], v)
